@@ -111,11 +111,16 @@ impl Iterator for Args {
     fn next(&mut self) -> Option<Self::Item> {
         self.0.next().map(|e| Ok(UnixStr::as_str(e)?))
     }
+
+    #[inline]
+    fn size_hint(&self) -> (usize, Option<usize>) {
+        self.0.size_hint()
+    }
 }
 
 impl ExactSizeIterator for Args {
     fn len(&self) -> usize {
-        self.0.num_args
+        self.0.len()
     }
 }
 
@@ -146,10 +151,16 @@ impl Iterator for ArgsOs {
         }
         None
     }
+
+    #[inline]
+    fn size_hint(&self) -> (usize, Option<usize>) {
+        let remaining = self.len();
+        (remaining, Some(remaining))
+    }
 }
 
 impl ExactSizeIterator for ArgsOs {
     fn len(&self) -> usize {
-        self.num_args
+        self.num_args - self.ind
     }
 }
